@@ -171,6 +171,17 @@ func runMain(args []string) {
 			}
 		}
 		sum.Queries += res.Queries
+		sum.QUnsat += res.QUnsat
+		sum.QSat += res.QSat
+		if res.Status == "done" && len(sum.PathSamples) < 6 && (len(sum.PathSamples) < 2 || sum.Paths%97 == 0) {
+			var reached []string
+			for k := range res.Reached {
+				reached = append(reached, k)
+			}
+			sort.Strings(reached)
+			sum.PathSamples = append(sum.PathSamples, map[string]any{"harness": res.Harness, "decisions": res.Prefix,
+				"reached": reached, "obligations": len(res.Obligations), "solver_queries": res.Queries, "infeasible_alternatives_refuted": res.QUnsat})
+		}
 		sum.SolverS += float64(res.SolverMs) / 1000
 		hst.SolverS += float64(res.SolverMs) / 1000
 		sum.Steps += int64(res.Steps)
